@@ -21,6 +21,7 @@ struct St {
     lead: String,             // leading comment text (with newlines)
     trail: String,            // trailing comment on the statement's line
     is_last: bool,
+    blank: usize, // blank lines in front of the statement's leading comments
 }
 
 const DIRECTIVES: &[(&str, &str)] = &[
@@ -67,7 +68,7 @@ fn make_stmt(r: &mut Rng, id: usize, allow_paren: bool) -> St {
     }
     let semi = r.chance(1, 3);
     let trail = if r.chance(1, 5) { format!(" -- t{}", id) } else { String::new() };
-    St { id, kind, raw, fmt_first, starts_paren, semi, lines, lead, trail, is_last: false }
+    St { id, kind, raw, fmt_first, starts_paren, semi, lines, lead, trail, is_last: false, blank: 0 }
 }
 
 struct Prog {
@@ -81,6 +82,9 @@ fn build(stmts: &[St], one_line: bool) -> Prog {
     let mut spans = Vec::new();
     for (i, s) in stmts.iter().enumerate() {
         if i == 0 || !one_line {
+            for _ in 0..s.blank {
+                text.push('\n');
+            }
             text.push_str(&s.lead);
         }
         let a = text.len();
@@ -173,6 +177,19 @@ fn observe(out: &str, s: &St) -> (char, bool) {
     }
 }
 
+/// number of empty lines directly above the line that starts with `key`
+fn blank_before(out: &str, key: &str) -> Option<usize> {
+    let lines: Vec<&str> = out.split('\n').collect();
+    let i = lines.iter().position(|l| l.trim_start().starts_with(key))?;
+    let mut n = 0;
+    let mut j = i;
+    while j > 0 && lines[j - 1].trim().is_empty() {
+        n += 1;
+        j -= 1;
+    }
+    Some(n)
+}
+
 pub fn run(tier: &str, seed: u64) -> Sink {
     let thorough = tier == "thorough";
     let n = if thorough { 60000 } else { 8000 };
@@ -202,12 +219,19 @@ pub fn run(tier: &str, seed: u64) -> Sink {
                 stmts[k - 1].semi = true;
             }
         }
+        let mut rb = Rng::new(seed.wrapping_mul(104729) ^ (i as u64) ^ 0xB1A);
+        for k in 0..stmts.len() {
+            if rb.chance(1, 4) {
+                stmts[k].blank = 1 + rb.below(2);
+            }
+        }
         let one_line = r.chance(1, 6);
         if one_line {
             // statements share a line: only the first one can carry leading comments
             for k in 1..stmts.len() {
                 stmts[k].lines.clear();
                 stmts[k].lead.clear();
+                stmts[k].blank = 0;
             }
             for k in 0..stmts.len().saturating_sub(1) {
                 stmts[k].trail.clear();
@@ -340,6 +364,14 @@ pub fn run(tier: &str, seed: u64) -> Sink {
                         if (v, semi) != (vw, semiw) {
                             sink.v("C09", "inside-stmt-differs-from-whole-file", json!({"input": text, "config": cfg_to_string(&c), "range": [rs, re], "output": out, "whole": whole, "statement": s.raw}));
                         }
+                        // ... including the blank line kept (or not) in front of it (its own leading trivia)
+                        if s.lead.is_empty() && s.fmt_first != "repeat" && s.fmt_first != "do" {
+                            if let (Some(a), Some(b)) = (blank_before(&out, &s.fmt_first), blank_before(&whole, &s.fmt_first)) {
+                                if a != b {
+                                    sink.v("C09", "inside-stmt-blank-lines-differ-from-whole-file", json!({"input": text, "config": cfg_to_string(&c), "range": [rs, re], "output": out, "whole": whole, "statement": s.raw, "blank_in_output": a, "blank_whole_file": b}));
+                                }
+                            }
+                        }
                     }
                 }
                 if !nested {
@@ -376,6 +408,32 @@ pub fn run(tier: &str, seed: u64) -> Sink {
                 }
                 if !parses(&out, c.syntax) {
                     sink.v("C01", "range:unparseable-output", json!({"input": text, "config": cfg_to_string(&c), "range": [rs, re], "output": out}));
+                }
+            }
+        }
+        // ---------- C08 under ranges: an ignored statement stays verbatim wherever the range boundary falls
+        // (also inside the ignored statement itself)
+        if exp.iter().any(|x| *x) && !nested {
+            let m = stmts.len();
+            let mut cands: Vec<(Option<usize>, Option<usize>)> = Vec::new();
+            for k in 0..m {
+                let (a, b, c3) = prog.spans[k];
+                let mid = a + (b - a) / 2;
+                cands.push((Some(mid), None));
+                cands.push((None, Some(mid)));
+                cands.push((Some(a), Some(c3)));
+            }
+            for (rs, re) in cands {
+                ranges_done += 1;
+                if let Outcome::Ok(out) = fmt(&text, c, Some(Range::from_values(rs, re)), false) {
+                    for (k, s) in stmts.iter().enumerate() {
+                        if exp[k] {
+                            let slice = &prog.text[prog.spans[k].0..prog.spans[k].2];
+                            if !out.contains(slice) {
+                                sink.v("C08", "ignored-stmt:text-changed-under-range", json!({"input": text, "config": cfg_to_string(&c), "range": [rs, re], "output": out, "statement": s.raw}));
+                            }
+                        }
+                    }
                 }
             }
         }
